@@ -125,18 +125,24 @@ def rule_recipients(program, ctx):
         if not writes:
             ctx.bad(finding_at(P, rid, l, "the relay loop writes to nobody"))
         for w in writes:
-            guard = [a for a in ancestors(w) if isinstance(a, ast.If) and any(isinstance(c, ast.Compare) and isinstance(c.ops[0], (ast.NotEq, ast.IsNot)) and {dotted(c.left), dotted(c.comparators[0])} == {tgt, "writer"} for c in ast.walk(a.test))]
+            def notself(expr, pol, tgt=tgt):
+                if isinstance(expr, ast.Compare) and len(expr.ops) == 1 and {dotted(expr.left), dotted(expr.comparators[0])} == {tgt, "writer"}:
+                    return (isinstance(expr.ops[0], (ast.NotEq, ast.IsNot)) and pol) or (isinstance(expr.ops[0], (ast.Eq, ast.Is)) and not pol)
+                return False
+
             comp_guard = False
             for l2, d2 in alias_loops:
                 if l2 is l and isinstance(d2.value, (ast.ListComp, ast.GeneratorExp, ast.SetComp)):
                     g = d2.value.generators[0]
                     gv = g.target.id if isinstance(g.target, ast.Name) else None
                     comp_guard = any(isinstance(c, ast.Compare) and isinstance(c.ops[0], (ast.NotEq, ast.IsNot)) and {dotted(c.left), dotted(c.comparators[0])} == {gv, "writer"} for i in g.ifs for c in ast.walk(i)) and dotted(d2.value.elt) == gv
-            if comp_guard or (guard and not guard[0].orelse):
+            wn = cfg.nodes_of(enclosing_stmt(w))
+            if comp_guard or (test_edges(cfg, notself) and not must_pass(cfg, test_edges(cfg, notself), wn)):
                 ctx.ok(rid, w, "peer.write(data) only if peer != writer")
             else:
                 ctx.bad(finding_at(P, rid, w, "ids are echoed back to the worker that announced them (no `peer != writer` guard)"))
-            if w.args and dotted(w.args[0]) != "data":
+            rec = {s_.targets[0].id for s_ in walk_no_nested(fn) if isinstance(s_, ast.Assign) and isinstance(s_.targets[0], ast.Name) and "reader.read" in ast.unparse(s_.value)}
+            if w.args and dotted(w.args[0]) not in rec:
                 ctx.bad(finding_at(P, rid, w, "something other than the record just read is relayed"))
     # registration / deregistration
     reg = [s for s in walk_no_nested(fn) if isinstance(s, ast.Assign) and any(isinstance(t, ast.Subscript) and dotted(t.value) == "self.connections" for t in s.targets)]
